@@ -168,3 +168,14 @@ Example C05_section_round_trip_any_eids_example :
   = OkR (hier_x (of_string "subsection") [(EID, of_string "chp_2__subsec_3A")] [(EID, of_string "chp_2__subsec_3A__p_1")]
                 (of_string "(3A)") (of_string "PART 1 - **x**") (of_string "SUBHEADING {{*r}}")).
 Proof. vm_compute. reflexivity. Qed.
+
+
+(* ... and for a crossheading *)
+Theorem C05_crossheading_round_trip_any_eids : forall uri prefix s a root_meta att_meta,
+  assoc_str uri meta_templates = Some (root_meta, att_meta) ->
+  line_text s ->
+  Forall (fun kv => fst kv = EID) a ->
+  convert uri (of_string "hier_element") prefix (unparse_doc (El CHT a [Tx s]))
+  = OkR (El CHT [(EID, candidate prefix CHT (of_string "1"))] [Tx s]).
+Proof. exact crossheading_round_trip_any_eids. Qed.
+Print Assumptions C05_crossheading_round_trip_any_eids.
